@@ -512,6 +512,8 @@ func exprString(x ast.Expr) string {
 		return n.Name
 	case *ast.SelectorExpr:
 		return exprString(n.X) + "." + n.Sel.Name
+	case *ast.IndexExpr:
+		return exprString(n.X) + "[" + exprString(n.Index) + "]"
 	}
 	return fmt.Sprintf("%T", x)
 }
